@@ -201,7 +201,7 @@ class SO3(SMPose):
         if len(self) == 1:
             return base.tr2eul(self.A, unit=unit)
         else:
-            return np.array([base.tr2eul(x, unit=unit) for x in self.A]).T
+            return np.array([base.tr2eul(x, unit=unit) for x in self.A])
 
     def rpy(self, unit='rad', order='zyx'):
         """
@@ -239,7 +239,7 @@ class SO3(SMPose):
         if len(self) == 1:
             return base.tr2rpy(self.A, unit=unit, order=order)
         else:
-            return np.array([base.tr2rpy(x, unit=unit, order=order) for x in self.A]).T
+            return np.array([base.tr2rpy(x, unit=unit, order=order) for x in self.A])
 
     def angvec(self, unit='rad'):
         r"""
